@@ -373,3 +373,43 @@ PROPS["C44"] = dict(
     trusted_base=MIR_TB,
     mir=True,
 )
+
+
+PROPS["C26"] = dict(
+    title="Roots and powers are correctly truncated",
+    functions=["radix_common::math::Decimal::{checked_sqrt, checked_cbrt, checked_nth_root, checked_powi}",
+               "radix_common::math::PreciseDecimal::{checked_sqrt, checked_cbrt, checked_nth_root (degrees 0,1), "
+               "checked_powi}", "the I192/I256/I320/I384/I512 wrappers they call"],
+    bounds="every 192-bit / 256-bit value; root degree enumerated: sqrt, cbrt, nth_root for n in {0,1,2,3,4} (Decimal) "
+           "and {0,1} (PreciseDecimal); exponent of checked_powi enumerated: Decimal {0,1,2,3,4,5,-1,-2}, "
+           "PreciseDecimal {2,3,-1} (recursion unrolled for the concrete exponent)",
+    outside="larger root degrees and exponents (the degree / exponent is a loop or recursion bound); the correctness "
+            "of bnum's integer root algorithm itself (modelled as the floor root: the claim is about the repo's "
+            "scaling, sign and range handling around it); for negative exponents only the zero-base failure is "
+            "asserted",
+    assumptions=["bnum BInt/BUint::{sqrt, cbrt, nth_root} return the floor root of a non-negative argument and "
+                 "minus the floor root of the magnitude for a negative argument of odd degree (library model)",
+                 "other bnum primitives as in the library model table"],
+    trusted_base=MIR_TB,
+    mir=True,
+)
+
+PROPS["C24"]["functions"] += [
+    "radix_common::math::{Decimal, PreciseDecimal}::{checked_add, checked_sub, checked_neg, checked_abs} (MIR->SMT)",
+    "PreciseDecimal::from(Decimal), Decimal::try_from(PreciseDecimal), PreciseDecimal::checked_truncate (all 7 modes), "
+    "Decimal::from({i64,u64,i128,u128}), PreciseDecimal::from({i128,u128}), {i64,u64,i128,u8}::try_from(Decimal) "
+    "(MIR->SMT; one job per concrete instantiation of the macro-generated impls)"]
+PROPS["C24"]["outside"] = ("saturating_*/operator impls that expect() on the checked result; Decimal x primitive-integer "
+                           "arithmetic impls; From/TryFrom for the remaining primitive widths (same macro bodies as the "
+                           "instantiations checked); ordering; the correctness of bnum's own limb arithmetic (trusted "
+                           "via the model table, cross-checked by the per-run self-test vectors and, for add/sub, by the "
+                           "Kani harness against a limb-level reference); Display/FromStr")
+PROPS["C25"]["functions"] += ["{Decimal, PreciseDecimal}::{checked_floor, checked_ceiling}"]
+PROPS["C25"]["outside"] = ("for_withdrawal / check_fungible_amount wrappers in radix-engine-interface (they only pick dp "
+                           "and mode); the two assert!s on decimal_places (dp outside [0, SCALE] panics by contract)")
+PROPS["C29"]["functions"] += ["radix_common::time::Instant::{add_days, add_hours, add_minutes, add_seconds}",
+                              "radix_common::time::UtcDateTime::{add_days, add_hours, add_minutes, add_seconds} "
+                              "(thorough tier; composition from MIR with to_instant/from_instant replaced by the "
+                              "contract the other two jobs decide)"]
+PROPS["C29"]["outside"] = PROPS["C29"]["outside"].replace(
+    "add_days/hours/minutes/seconds (compositions of the two conversions with Instant::add_*); ", "")
